@@ -290,6 +290,12 @@ fn env_steps(rng: &mut Rng, docs: &[Doc], order: &[usize], with_failures: bool, 
 }
 
 fn gen_session(rng: &mut Rng, no_twins: bool, c06: bool) -> Session {
+    gen_session_with(rng, no_twins, c06, false)
+}
+
+/// `cut_short`: some document of the history may end early, at a token boundary (C06, C09: their statements speak of
+/// the documents supplied, not of well-formed ones; C01 and C03 are stated for well-formed documents only)
+fn gen_session_with(rng: &mut Rng, no_twins: bool, c06: bool, cut_short: bool) -> Session {
     let bias = rng.pct(35);
     let mut cfg = GenCfg::draw(rng, bias);
     cfg.no_prefix_twins = no_twins;
@@ -312,11 +318,19 @@ fn gen_session(rng: &mut Rng, no_twins: bool, c06: bool) -> Session {
         cfg.elem_names.push("a".into());
     }
     let k = if c06 { rng.range(2, 5) } else { *rng.pick(&[1usize, 1, 2, 2, 3, 3, 4, 5]) };
-    let docs = match special_family(rng, &cfg) {
+    let mut docs = match special_family(rng, &cfg) {
         // the unreliable-delivery property is not about depth: keep its (many-replica) sessions shallow
         Some(d) if !(c06 && (d.iter().any(|x| x.root.depth() > 140) || d.len() > 5 || (d.iter().map(|x| x.root.count()).sum::<usize>() > 1500 && d[0].root.count() < 30_000))) => d,
         _ => gen_history(rng, &cfg, k).1,
     };
+    if cut_short && rng.pct(15) {
+        let i = rng.below(docs.len());
+        docs[i].unclosed = true;
+        if rng.pct(30) {
+            let j = rng.below(docs.len());
+            docs[j].unclosed = true;
+        }
+    }
     // expensive histories (very deep, or thousands of distinct children under one parent) get the baseline replica only
     let very_deep = docs.iter().any(|x| x.root.depth() > 140 || x.root.elems().any(|p| p.kids.len() > 2000));
     let k = docs.len();
@@ -876,7 +890,7 @@ impl Prop for C09 {
     }
     fn gen(&self, seed: u64) -> Scenario {
         let mut rng = Rng::new(seed);
-        let mut s = gen_session(&mut rng, false, false);
+        let mut s = gen_session_with(&mut rng, false, false, true);
         // a caller may set the text identifier itself (a public field): the orders must not depend on it
         if rng.chance(1, 3) {
             let id = rng.pick(&["#body", "zz#", "A#", "m#text", "#", "~"]).to_string();
@@ -1035,6 +1049,7 @@ impl Prop for C09 {
         vec![
             "'order of first appearance in the supplied documents' = document order within a document, delivery order across documents",
             "XML-name order = Rust String (byte-wise) order of the full name",
+            "a stream that stops at a token boundary (15 % of the sessions hold one) is a supplied document like any other: the reader reports a plain end of input, the open elements are taken as they stand, so it counts exactly like its complete form",
         ]
     }
 }
@@ -1052,7 +1067,7 @@ impl Prop for C06 {
     }
     fn gen(&self, seed: u64) -> Scenario {
         let mut rng = Rng::new(seed);
-        Scenario::Session(gen_session(&mut rng, false, true))
+        Scenario::Session(gen_session_with(&mut rng, false, true, true))
     }
     fn exec(&self, sc: &Scenario, ctr: &mut Ctr) -> Result<Exec, String> {
         let Scenario::Session(s) = sc else { return Ok(super::skip("not_a_session")) };
@@ -1196,6 +1211,7 @@ impl Prop for C06 {
         vec![
             "the client keeps its pre-operation clone, because extend_struct consumes the tree; after an Err it continues from that clone",
             "identifiers and field order legitimately depend on delivery order, so replicas are compared by XML name, optionality, multiplicity, text flag and nesting only",
+            "a stream that stops at a token boundary (15 % of the sessions hold one) is a supplied document like any other: the reader reports a plain end of input, the open elements are taken as they stand, so it counts exactly like its complete form",
         ]
     }
 }
